@@ -505,6 +505,8 @@ func (p *Parser) parseFnArgs() ([]*ast.Ident, error) {
 			if l = p.peek(); l.Typ != ast.ItemIdentifier {
 				return nil, fmt.Errorf("ln%v: expecting another identifier after comma in param list, got %v", n.Line, n.Val)
 			}
+		} else if l.Typ != ast.ItemRightParen {
+			return nil, fmt.Errorf("ln%v: expecting , or ) after parameter name, got %v", l.Line, l.Val)
 		}
 	}
 	return args, nil
